@@ -106,6 +106,10 @@ EFFECTS = [
     dict(file="FnKeepalive", src="client.py", qual="Client._send_pingreq", name="sendPingreq", params=[], ret="Int",
          attrs=[], clock="now", ignore=["_easy_log"],
          calls={"_send_simple_command": dict(clobbers="*", args=1, returns=True)}),
+    # (args="opaque": the arguments are objects the translated function does not look at)
+    dict(file="FnLoopRc", src="client.py", qual="Client.disconnect", name="disconnect", params=[], ret="Int",
+         attrs=[("_sock", "Ref")], clock="now",
+         calls={"_send_disconnect": dict(clobbers="*", args="opaque", returns=True)}),
     dict(file="FnLoopRc", src="client.py", qual="Client._loop_rc_handle", name="loopRcHandle", params=[("rc", "Int")], ret="Int",
          attrs=[("_sock", "Ref"), ("_state", "Int")], clock="now",
          calls={"_sock_close": dict(clobbers=["_sock"]),
@@ -761,9 +765,9 @@ class EffTr(Tr):
         name = v.func.attr
         c = self.cfg["calls"][name]
         args = []
-        if len(v.args) != c.get("args", 0):
+        if c.get("args") != "opaque" and len(v.args) != c.get("args", 0):
             raise Missing(f"positional arguments in self.{name}()")
-        for a_ in v.args:
+        for a_ in ([] if c.get("args") == "opaque" else v.args):
             a, t = self.expr(a_)
             if t != "Int":
                 raise Missing(f"positional argument of type {t}")
@@ -806,6 +810,14 @@ class EffTr(Tr):
                 if self.cfg.get("ret"):
                     raise Missing("bare return in a method that returns a value")
                 out.append(f"{pad}return effs")
+            elif isinstance(s, ast.Return) and self.cfg.get("ret") == "Int" and self.is_call(s.value) \
+                    and self.cfg["calls"][s.value.func.attr].get("returns"):
+                pn = "ret_" + s.value.func.attr.lstrip("_")
+                if any(x[0] == pn for x in self.extra):
+                    raise Missing(f"result of self.{s.value.func.attr}() bound twice")
+                out.append(self.call_eff(pad, s.value))
+                self.extra.append((pn, "Int"))
+                out.append(f"{pad}return ({pn}, effs)")
             elif isinstance(s, ast.Return) and self.cfg.get("ret") == "Int":
                 val, t = self.expr(s.value)
                 if t != "Int":
